@@ -23,5 +23,6 @@ def run(prog, rep, tier):
     import r_core
     apply(rep, "P2c", "stack accessors raise the underflow error exactly when they would reach below the bottom", r_core.p2c(prog), 5)
     apply(rep, "Y1", "scanner completeness", r_lex.y1(prog), 4)
+    apply(rep, "K6", "the driver does not dereference an empty argument list", r_cli.k6(prog), 1)
     apply(rep, "K3", "CLI maps every exception to exit status 2", r_cli.k3(prog), 10)
     maybe_mutants("C14", rep, tier)
